@@ -179,6 +179,14 @@ def run(chk):
                 chk.cov["vm_compute_crosschecked"] = cc.coq_crosscheck(chk, sample_lines, mo)
             except Exception as ex:
                 chk.infra_errors.append("vm_compute cross-check failed: %r" % (ex,))
+            # the owner drops the cache while Loads are outstanding (and goes on loading through the inner object): the
+            # finalizer closes the cache, senders and leaving workers run the loaders themselves -- still one invocation per
+            # Load, one pair per Future (generator shared with C06, which checks liveness on it)
+            from . import c06
+            quick = chk.tier == "quick"
+            cc.run_drop_stream(chk, binary, "cache-dropped-while-loads-outstanding",
+                               c06.drop_scripts(chk.rng, 24 if quick else 300, trials=4 if quick else 10), cc.monitor_drop_c04,
+                               "the script drops its last reference to the cache after a burst of Loads: ")
             run_shards(chk, binary)
             run_stress(chk, 100 if chk.tier == "quick" else 1500)
         except common.ImplCrash as e:
